@@ -149,5 +149,19 @@ func checks() map[string]CheckDef {
 		Outside: []string{"goroutine interleavings: a goroutine started with `go` runs at its spawn point until it finishes or blocks forever (then it is parked); other schedules are not explored", "centrifuge delivery to real clients; the JSON text (json.Marshal is a blob tagged with the encoded value)", "a panicking channel", "webhook delivery is C12"},
 		Stubs:   []string{"recording channels, recording publisher", "encoding/json.Marshal = opaque blob of its argument"},
 	})
+	add(CheckDef{
+		ID: "C12", Level: "model_checking",
+		Runs: []HRun{
+			{Pkg: "internal/zzverif/c12", Func: "HarnessNotifyStep", Quick: [][]int64{{1}, {2}}, Thorough: [][]int64{{2}, {3}},
+				Labels: []string{"C12/one-POST-per-active-webhook", "C12/carries-exactly-its-authorisation-header", "C12/success-resets-count-and-keeps-active", "C12/failure-increments-count", "C12/inactive-exactly-when-count-reaches-max-tries", "C12/inactive-webhooks-are-not-called", "C12/inactive-row-untouched"}},
+			{Pkg: "internal/zzverif/c12", Func: "HarnessRegister", Quick: [][]int64{{1}, {2}}, Thorough: [][]int64{{3}},
+				Labels: []string{"C12/re-registering-an-active-url-is-refused", "C12/inactive-url-is-reactivated-with-zero-count", "C12/new-url-is-stored", "C12/stored-authorisation-is-the-documented-header", "C12/delete-removes-exactly-that-webhook"}},
+			{Pkg: "internal/zzverif/c12", Func: "HarnessReport", Quick: [][]int64{{1}, {2}}, Thorough: [][]int64{{3}},
+				Labels: []string{"C12/report-active-flag-and-error-count", "C12/report-time-and-status-of-last-attempt", "C12/unknown-webhook-is-an-error"}},
+		},
+		Bounds:  []string{"one event delivered to an arbitrary webhooks table of k rows (quick k<=2, thorough k<=3): every column arbitrary, every per-call outcome in {200, other status 100..599, transport error, unreadable body}, max_tries any int >= 1; the step covers any history because the pre-state is arbitrary", "registration (bearer | custom header | none) / re-registration / deletion of an arbitrary URL against an arbitrary table", "report of an arbitrary stored row"},
+		Outside: []string{"a custom header literally named Content-Type (the sender sets that name itself; assumed different)", "the net/http client in transports/http/client (the header map handed to it is what is asserted)", "events delivered concurrently; the HTTP shell of the webhook endpoints is C16", "restart: the service keeps no webhook state in memory"},
+		Stubs:   []string{"WebhookTargetClient: recording stub with symbolic outcomes; http.Response bodies are harness readers", "time.Now arbitrary non-decreasing"},
+	})
 	return m
 }
